@@ -153,6 +153,18 @@ impl ValidationContext {
                 self.validate_expr_function_calls(left)?;
                 self.validate_expr_function_calls(right)?;
             }
+            Expression::Variable(name) if name.contains('.') => {
+                self.check_qualified_name(name)?;
+            }
+            Expression::ListItems(items) => {
+                for item in items {
+                    if !self.list_item_names.contains(item) {
+                        return Err(CompilerError::invalid_source(format!(
+                            "Unresolved list item: '{item}'"
+                        )));
+                    }
+                }
+            }
             _ => {}
         }
         Ok(())
@@ -172,7 +184,38 @@ impl ValidationContext {
             )));
         }
 
-        Ok(())
+        // `list(n)` builds a list value; a variable may hold a divert target
+        // to a function.
+        if self.list_names.contains(name)
+            || self.global_var_names.contains(name)
+            || self.local_names.contains(name)
+        {
+            return Ok(());
+        }
+
+        Err(CompilerError::invalid_source(format!(
+            "Function not found: '{name}'"
+        )))
+    }
+
+    /// `a.b` in an expression is either a list item (`list.item`) or the read
+    /// count of a knot, stitch or label, possibly written relative to the
+    /// enclosing knot (`stitch.label`).
+    fn check_qualified_name(&self, name: &str) -> Result<(), CompilerError> {
+        let suffix = format!(".{name}");
+        if self.list_item_names.contains(name)
+            || self.valid_targets.contains(name)
+            || self
+                .valid_targets
+                .iter()
+                .any(|target| target.ends_with(&suffix))
+        {
+            return Ok(());
+        }
+
+        Err(CompilerError::invalid_source(format!(
+            "Unresolved variable: {name}"
+        )))
     }
 
     fn validate_nodes_variable_divert_targets(
